@@ -244,7 +244,13 @@ def impl(case):
         if dat is not None and len(dat) == 1:
             dat = dat[0]
         nm = names if (names is None or len(names) != 1) else names[0]
-        ds = C.call(vd.make_xarray_grid, coords, dat, nm, dims=tuple(dims), extra_coords_names=exnames)
+        exn = exnames
+        if isinstance(exnames, list) and len(exnames) == 1 and len(case["op"]) % 2:
+            exn = exnames[0]      # the name of a single extra coordinate as a plain string ("upward"), like the name of a single data array
+        if len(case["op"]) % 3 == 0:
+            ds = C.call(vd.make_xarray_grid, coords, dat, nm, tuple(dims), extra_coords_names=exn)      # `dims` in its documented position (the fourth)
+        else:
+            ds = C.call(vd.make_xarray_grid, coords, dat, nm, dims=tuple(dims), extra_coords_names=exn)
         if C.is_err(ds):
             return ds
         if fn == "make_grid":
